@@ -52,7 +52,7 @@ func (e *c01Env) counts() (held, assigned int) {
 
 func TestVerifC01Seq(t *testing.T) {
 	defer c01PinGates()()
-	kit.Run(t, kit.Config{Property: "C01", Unit: "seq", Quick: 450, Thorough: 24000,
+	kit.Run(t, kit.Config{Property: "C01", Unit: "seq", Quick: 400, Thorough: 24000,
 		Rule: "histories of 40-200 operations on a real GroupQuotaManager: tree of 3-7 groups (depth <= 3, one fixed dimension set cpu,memory[+1 extended]), 4-12 pods that also request an undeclared dimension; pod add/update/label change/delete/reserve/unreserve/migrate/duplicate and unknown events 75%, quota set-max/min/weight/lent/is-parent/re-parent/delete/re-create/reset 20%, nodes 5%; oracle after every operation, fresh-manager and ResetQuota differentials every 25 operations; distinct = (tree shape, operation kind, #pods held, #pods assigned); non-trivial = case with >= 1 re-parent or delete of a group with non-zero subtree totals"},
 		func(c *kit.Case) {
 			r := c.R
@@ -110,6 +110,7 @@ func TestVerifC01Seq(t *testing.T) {
 				}
 				c.Count("op_"+kind, 1)
 				e.check(ctx)
+				e.heal(ctx.where)
 				held, asg := e.counts()
 				c.Seen(m.shape(), kind, held, asg)
 				if (op+1)%25 == 0 {
@@ -143,7 +144,7 @@ func TestVerifC01Seq(t *testing.T) {
 
 func TestVerifC01Conc(t *testing.T) {
 	defer c01PinGates()()
-	kit.Run(t, kit.Config{Property: "C01", Unit: "conc", Quick: 220, Thorough: 9000,
+	kit.Run(t, kit.Config{Property: "C01", Unit: "conc", Quick: 200, Thorough: 9000,
 		Rule: "3-6 rounds per case on a real GroupQuotaManager under the race detector: 4-8 worker goroutines issue 6-14 pod operations each on disjoint pods (8-16 pods), one goroutine issues 2-6 quota mutations (set-max/min/weight/lent, re-parent, delete of pre-selected groups, create, reset, nodes), one goroutine reads (RefreshRuntime, summaries, snapshot); yields between operations; oracle (recompute from scratch) at each quiescent point, fresh-manager and ResetQuota differentials at the end; distinct = (tree shape, #workers, #pods held, #pods assigned, quota operation kinds of the round); non-trivial = case with >= 1 re-parent or delete of a group with non-zero subtree totals issued concurrently with pod events"},
 		func(c *kit.Case) {
 			r := c.R
@@ -173,7 +174,12 @@ func TestVerifC01Conc(t *testing.T) {
 
 func (e *c01Env) concRound(r *kit.Rand, round int) {
 	c, m := e.c, e.m
-	pre := m.compute()
+	var recs []c01PodAt // where every pod was, with which request, at some time of this round
+	for _, p := range m.pods {
+		if p.inMgr {
+			recs = append(recs, c01PodAt{slot: p.slot, group: p.group, req: p.req})
+		}
+	}
 	// the quota goroutine's private groups
 	doomed, reserved := map[string]bool{}, map[string]bool{}
 	var stable []string
@@ -213,7 +219,7 @@ func (e *c01Env) concRound(r *kit.Rand, round int) {
 	ctls := make([]*c01PodCtl, nworkers)
 	for w := 0; w < nworkers; w++ {
 		w, wr := w, r.Fork()
-		ctls[w] = &c01PodCtl{dests: dests}
+		ctls[w] = &c01PodCtl{dests: dests, track: true}
 		var mine []*c01Pod
 		for _, p := range m.pods {
 			if p.slot%nworkers == w {
@@ -241,22 +247,9 @@ func (e *c01Env) concRound(r *kit.Rand, round int) {
 		mayBecomeParent: func(n string) bool { return reserved[n] },
 		mayDelete:       func(n string) bool { return doomed[n] },
 		onDelete:        func(n string) { deletedNow[n] = true },
-		// classification only: the manager's own view just before the operation, or the model's before the round
-		limited: func(n string) bool {
-			if m.limited(pre, n) {
-				return true
-			}
-			s, ok := e.gqm.GetQuotaSummary(n, false)
-			if !ok {
-				return false
-			}
-			for name, q := range s.Request {
-				if mx, ok := s.Max[name]; ok && q.Cmp(mx) > 0 {
-					return true
-				}
-			}
-			return false
-		},
+		// classification is done after the round (possiblyLimited): the request at the instant of the
+		// operation depends on the interleaving
+		limited: func(n string) bool { return false },
 		nonZero: func(n string) bool {
 			s, ok := e.gqm.GetQuotaSummary(n, false)
 			if !ok {
@@ -329,14 +322,18 @@ func (e *c01Env) concRound(r *kit.Rand, round int) {
 			p.drop()
 		}
 	}
-	post := m.compute()
-	for _, d := range detaches {
-		if m.limited(post, d.x) {
-			d.limited = true
+	for _, ctl := range ctls {
+		recs = append(recs, ctl.seen...)
+		e.staleCtx(ctx, ctl.staleMigrate)
+		if len(ctl.staleMigrate) > 0 && len(detaches) > 0 {
+			ctx.staleAll = true // the ancestors of the migration's groups changed during the round
 		}
 	}
-	for _, ctl := range ctls {
-		e.staleCtx(ctx, ctl.staleMigrate)
+	for _, d := range detaches {
+		if d.possiblyLimited(m.nd, recs) {
+			d.limited = true
+			c.Count("detach_of_possibly_max_limited_group", 1)
+		}
 	}
 	sort.Strings(qkinds)
 	c.Count("rounds", 1)
@@ -347,6 +344,7 @@ func (e *c01Env) concRound(r *kit.Rand, round int) {
 	}
 	c01IlvMu.Unlock()
 	e.check(ctx)
+	e.heal(ctx.where)
 	held, asg := e.counts()
 	c.Seen(m.shape(), nworkers, held, asg, qkinds)
 }
